@@ -165,6 +165,10 @@ def run(db, tier):
     rep.check(ok, "R-CMP-JMP", "TwoPart|cmp-then-jmp", cj.loc, "the comparison instruction is emitted before the jump instruction",
               "the TwoPart arm does not emit cmp_opcode first and jmp_opcode second")
     _cond_tables(db, rep)
+    # a register the explicit-register collector misses is handed out as a temporary and clobbered (rule shared with C05)
+    from props import c05
+    rep.rule("R-TRAVERSAL", "register collection and register substitution walk the same LowerArg shapes, recursively through DiffSwitch (shared with C05)")
+    c05.rule_traversal(db, rep, db.fn(c05.AR))
     return rep
 
 
